@@ -42,6 +42,8 @@ Normalisations applied to extracted text (each application is counted and report
   N6  `const X: T = <exec call>;` -> `exec const X: T ensures X == <lit> { <exec call> }`
   N7  `for x in E` -> `for x in name: E` (ghost iterator binder for loop invariants)
   N8  closure `|p| EXPR` -> `|p| -> (r: T) ensures .. { EXPR }` (closure contract; body tokens unchanged)
+  N9  `format!(..)` -> `format_stub()` (error-message text only; arguments must be call-free)
+  N10 closure parameter `_` -> `_x`
   D1  `log::<level>!(...)` statements dropped
   D2  `///` doc comment lines dropped
   D3  named derives dropped from an item (drop-derive=..; e.g. Debug on types with stand-in fields)
@@ -403,6 +405,28 @@ def apply_text_norms(text, mask, out, where):
         mask = mask[:m.start()] + blank + mask[end:]
         out.count("D1", "%s: %s" % (where, " ".join(seg.split())[:100]))
         out.dropped.append("%s: %s" % (where, " ".join(seg.split())))
+    # N9: format!(..) -> format_stub()   (message text only; the arguments may not contain calls)
+    while True:
+        m = re.search(r"\bformat!\s*\(", mask)
+        if not m:
+            break
+        close = match_close(mask, m.end() - 1)
+        if re.search(r"\b[a-z_][a-z0-9_]*\s*\(", mask[m.end():close]):
+            raise ExtractError("%s: format! with a call in its arguments" % where)
+        seg = text[m.start():close + 1]
+        repl = "format_stub()"
+        pad = "".join(ch for ch in seg if ch == "\n")
+        text = text[:m.start()] + repl + pad + text[close + 1:]
+        mask = mask[:m.start()] + repl + pad + mask[close + 1:]
+        out.count("N9", "%s: %s" % (where, " ".join(seg.split())[:100]))
+    # N10: closure parameter `_` gets a name (Verus rejects `_` closure parameters)
+    while True:
+        m = re.search(r"\|\s*_\s*\|", mask)
+        if not m:
+            break
+        text = text[:m.start()] + "|_x|" + text[m.end():]
+        mask = mask[:m.start()] + "|_x|" + mask[m.end():]
+        out.count("N10", where)
     # N4: crate:: / super:: path prefixes
     def n4(m):
         out.count("N4", "%s: %s" % (where, m.group(0)))
@@ -821,8 +845,21 @@ def assemble_fn(spec, bundle, out, canary=False):
         replaces.append((a, b, ""))
         out.count("N2", "%s: %s" % (where, " ".join(txt.split())))
     out.hoisted.setdefault((spec.file, spec.path), []).extend(hoisted)
+    # ---- assumed contract whose body cannot even be type-checked here (external crates): body replaced by a stub
+    if spec.opts.get("stub-body"):
+        if not any("external_body" in a for a in spec.attrs):
+            raise ExtractError("%s: stub-body is only allowed together with #[verifier::external_body]" % where)
+        inserts.clear()
+        replaces[:] = [r for r in replaces if r[0] < body_open]
+        for kind in order:
+            if kind in groups:
+                ins(body_open, "    " + kind, ("tmpl", groups[kind][0][3]))
+                for idx, c in enumerate(groups[kind], 1):
+                    ins(body_open, "        " + c[2].replace("\n", "\n        ") + ",", ("clause", clause_id(bundle, fnkey, kind, idx)))
+        replaces.append((body_open + 1, it.end - 1, " unimplemented!() "))
+        out.dropped.append("%s: body not verified and not type-checked (assumed contract, external_body)" % where)
     # ---- canary: wrap body
-    if canary:
+    if canary and not spec.opts.get("stub-body"):
         ins(body_open + 1, "let __canary_r = {", ("tmpl", spec.tmpl_line))
         ins(body_close, "}; proof { assert(false); } __canary_r", ("canary", fnkey))
 
@@ -935,17 +972,21 @@ def assemble_region(spec, bundle, out, sf, it, canary):
     lb, _, b1 = find_line(rx_b)
     if lb < la:
         raise ExtractError("%s: region anchors out of order" % where)
-    # region must be brace balanced
-    seg = mask[a0:b1]
-    depth = 0
-    for ch in seg:
-        if ch in "([{":
-            depth += 1
-        elif ch in ")]}":
-            depth -= 1
-            if depth < 0:
-                raise ExtractError("%s: region not balanced" % where)
-    if depth != 0:
+    # region must be brace balanced; a block opened on the end-anchor line is followed to its closing line
+    def depth_of(seg):
+        depth = 0
+        for ch in seg:
+            if ch in "([{":
+                depth += 1
+            elif ch in ")]}":
+                depth -= 1
+                if depth < 0:
+                    raise ExtractError("%s: region not balanced" % where)
+        return depth
+    while depth_of(mask[a0:b1]) > 0 and lb < l1:
+        lb += 1
+        b1 = sf.line_starts[lb] - 1 if lb < len(sf.line_starts) else len(src)
+    if depth_of(mask[a0:b1]) != 0:
         raise ExtractError("%s: region not balanced" % where)
 
     inserts, replaces = {}, []
@@ -1003,6 +1044,34 @@ def assemble_region(spec, bundle, out, sf, it, canary):
             out.clauses[cid] = {"fn": fnkey, "kind": "proof", "idx": idx, "tags": sorted(set(c[1] or spec.tags)),
                                 "text": " ".join(c[2].split()), "file": spec.file, "tmpl_line": c[3]}
             inserts.setdefault(lclose, []).append(("proof " + c[2], ("clause", cid)))
+    if spec.closures:
+        closures = find_closures(mask, a0, b1)
+        for n, cl in sorted(spec.closures.items()):
+            if n > len(closures):
+                raise ExtractError("%s: closure %d not found (region has %d closures)" % (where, n, len(closures)))
+            bar, after, cb, ce, is_block = closures[n - 1]
+            ret = [c for c in cl if c[0] == "ret"]
+            if len(ret) != 1:
+                raise ExtractError("%s: closure %d needs exactly one ret directive" % (where, n))
+            hdr = " -> (%s)" % ret[0][2].strip()
+            for kind in ["requires", "ensures"]:
+                cs = [c for c in cl if c[0] == kind]
+                if not cs:
+                    continue
+                parts = []
+                for idx, c in enumerate(cs, 1):
+                    cid = clause_id(bundle, fnkey, "closure%d.%s" % (n, kind), idx)
+                    out.clauses[cid] = {"fn": fnkey, "kind": "closure%d.%s" % (n, kind), "idx": idx,
+                                        "tags": sorted(set(c[1] or spec.tags)), "text": " ".join(c[2].split()),
+                                        "file": spec.file, "tmpl_line": c[3]}
+                    parts.append(c[2])
+                hdr += " %s %s" % (kind, ", ".join(parts))
+            if is_block:
+                replaces.append((after, after, hdr + " "))
+            else:
+                replaces.append((after, after, hdr + " {"))
+                replaces.append((ce, ce, " }"))
+            out.count("N8", "%s: closure %d annotated" % (where, n))
     pidx = 0
     for p in spec.proofs:
         pidx += 1
